@@ -65,6 +65,30 @@ INFO = {
     "a guard that acquired a marked null pointer and is re-used: its slot leaks; K leaks exhaust a static pool"),
  "c18-he-last-era-on-throw": ("C18", "hazard_eras alloc_hazard_era records the new era before the allocation that may throw",
     "all K slots in use, one failed allocation, then another guard request in the same era shares a stale slot (no exception, unprotected)"),
+ "r4-c01-he-acquire-if-equal-shared-slot": ("C01", "hazard_eras acquire_if_equal republishes the new era in the guard's slot without checking that no other guard shares the slot",
+    "two guards of one thread sharing an era slot (copy, or acquired in the same era), the first guard's object retired (era advances), successful acquire_if_equal on the second, a scan"),
+ "r4-c02-orphan-list-add-stale-next": ("C02", "orphan_list::add 'fast path': after a failed strong CAS the first weak CAS runs with the new head while last->next still points to the old one",
+    "two threads abandoning retire lists into the same epoch slot at the same time (simultaneous thread exits / abandon policies): the other thread's list is cut out and leaked"),
+ "r4-c03-he-dynamic-block-relaxed": ("C03", "hazard_eras dynamic strategy: next_block() loads he_block relaxed instead of acquire",
+    "a thread whose slot array grows (more live guards than K) while another thread scans it: the scanner reads the new block's plain fields without happens-before"),
+ "r4-c04-nikolaev-pop-next-hoisted": ("C04", "nikolaev_queue::do_pop loads node->_next once before the dequeue and reuses it for the emptiness check",
+    "a pop stalled between reading _next == null and its dequeue while others push across the node boundary and drain the node: EMPTY although never empty"),
+ "r4-c08-hashmap-find-start-guard-alias": ("C08", "harris_michael_hash_map::find: the guard of the search's start node became a reference to info.save (which is handed along)",
+    "HP / HE / LFRC: a search restarted from a predecessor mid-list advances two nodes, retries, and continues from the predecessor's reclaimed and reused memory: duplicate keys / unsorted bucket"),
+ "r4-c09-hashmap-erase-it-refind-no-advance": ("C09", "harris_michael_hash_map::erase(iterator): after the re-find path the iterator is not moved on to the next non-empty bucket",
+    "unlink CAS on the saved predecessor fails, the erased element was the last of its bucket, a later bucket is non-empty: the returned iterator equals end() and the traversal stops early"),
+ "r4-c10-vyukov-grow-skip-search": ("C10", "vyukov_hash_map::do_get_or_emplace skips the 'key already present' search on the retry after a grow",
+    "two threads inserting the same key, one of them triggering grow(): the other inserts between unlock in grow() and the re-lock: duplicate key"),
+ "r4-c11-vyukov-erase-it-last-ext-no-publish": ("C11", "vyukov_hash_map::erase(iterator) publishes the bumped version only if the iterator stays in the bucket",
+    ">= 128 buckets, erase(iterator) of the last extension item while a try_get_value stands on that item and the eraser waits for the next bucket: reader follows the freed item"),
+ "r4-c15-geb-acquire-if-equal-null-leak": ("C15", "generic_epoch_based acquire_if_equal: mismatch path calls reset(), which does not leave the critical region when the second load returned null",
+    "the source changes from expected (non-null) to nullptr between the two loads: the guard is empty but the region entry leaks, the epoch can never advance again"),
+ "r4-c16-seqlock-load-retry-waits": ("C16", "seqlock::load with slots > 1 waits for a pending write after a failed validation",
+    "a reader inside an invalidated load while the current writer is stopped between acquire_lock and release_lock"),
+ "r4-c17-geb-adopt-skip-epoch-idx": ("C17", "generic_epoch_based::acquire_control_block returns early when the adopted block's local_epoch equals the global epoch, skipping local_epoch_idx",
+    "a thread adopting an up-to-date block of an exited thread while epoch % 3 != 0 retires a node at once: it is filed under epoch index 0 and reclaimed too early while another thread guards it"),
+ "r4-c18-hp-dynamic-reinit-links": ("C18", "hazard_pointer dynamic strategy: initialize_next_block() of a grown block links to the older block without re-linking it",
+    "a control block that grew at least twice is reused by a new thread which again needs the older blocks: stale free-list links hand out a slot that is in use"),
 }
 rows = []
 for sid in sorted(INFO):
